@@ -73,21 +73,30 @@ func (u *UnitDefinition) FormatLongFloat(amount float64, displayZero bool) strin
 	return formatNumberUnitLong(amount, u, displayZero)
 }
 
-func formatNumberUnitShort[T NumberType](amount T, unit *UnitDefinition, displayZero bool) string {
-	var formatString string
-	switch any(amount).(type) {
+// formatNumberShort formats the number without insignificant zeros: trailing zeros are only removed after a
+// decimal point, so 10 stays "10" and 2.500000 becomes "2.5".
+func formatNumberShort[T NumberType](amount T) string {
+	switch v := any(amount).(type) {
 	case int64:
-		formatString = "%d"
+		return strconv.FormatInt(v, 10)
 	case float64:
-		formatString = "%f"
+		formatted := fmt.Sprintf("%f", v)
+		if strings.Contains(formatted, ".") {
+			formatted = strings.TrimSuffix(strings.TrimRight(formatted, "0"), ".")
+		}
+		return formatted
 	}
+	return fmt.Sprintf("%v", amount)
+}
+
+func formatNumberUnitShort[T NumberType](amount T, unit *UnitDefinition, displayZero bool) string {
 	switch {
 	case amount == 1 || amount == -1:
-		return strings.TrimRight(fmt.Sprintf(formatString, amount), "0.") + unit.NameShortSingular()
+		return formatNumberShort(amount) + unit.NameShortSingular()
 	case amount != 0:
-		return strings.TrimRight(fmt.Sprintf(formatString, amount), "0.") + unit.NameShortPlural()
+		return formatNumberShort(amount) + unit.NameShortPlural()
 	case displayZero:
-		return strings.TrimRight(fmt.Sprintf(formatString, amount), "0.") + unit.NameShortPlural()
+		return formatNumberShort(amount) + unit.NameShortPlural()
 	default:
 		return ""
 	}
@@ -159,7 +168,7 @@ func (u *UnitsDefinition) FormatShortInt(data int64) string {
 	remainder := data
 	output := ""
 	for _, multiplier := range u.getSortedMultipliersCache() {
-		base := int64(math.Floor(float64(remainder) / float64(multiplier)))
+		base := remainder / multiplier // Integer division: float64 cannot hold every int64 exactly.
 		remainder -= base * multiplier
 		output += formatNumberUnitShort(base, u.Multipliers()[multiplier], false)
 	}
@@ -177,7 +186,7 @@ func (u *UnitsDefinition) FormatShortFloat(data float64) string {
 	for _, multiplier := range u.getSortedMultipliersCache() {
 		base := int64(math.Floor(remainder / float64(multiplier)))
 		remainder -= float64(base * multiplier)
-		output += u.Multipliers()[multiplier].FormatShortFloat(float64(base), false)
+		output += u.Multipliers()[multiplier].FormatShortInt(base, false) // Whole number; parsable as a count.
 	}
 	output += u.BaseUnit().FormatShortFloat(remainder, false)
 	return output
@@ -191,9 +200,9 @@ func (u *UnitsDefinition) FormatLongInt(data int64) string {
 	remainder := data
 	output := ""
 	for _, multiplier := range u.getSortedMultipliersCache() {
-		base := int64(math.Floor(float64(remainder) / float64(multiplier)))
+		base := remainder / multiplier // Integer division: float64 cannot hold every int64 exactly.
 		remainder -= base * multiplier
-		output += u.Multipliers()[multiplier].FormatLongInt(remainder, false)
+		output += u.Multipliers()[multiplier].FormatLongInt(base, false)
 	}
 	output += u.BaseUnit().FormatLongInt(remainder, false)
 	return output
@@ -209,7 +218,7 @@ func (u *UnitsDefinition) FormatLongFloat(data float64) string {
 	for _, multiplier := range u.getSortedMultipliersCache() {
 		base := int64(math.Floor(remainder / float64(multiplier)))
 		remainder -= float64(base * multiplier)
-		output += u.Multipliers()[multiplier].FormatLongFloat(float64(base), false)
+		output += u.Multipliers()[multiplier].FormatLongInt(base, false) // Whole number; parsable as a count.
 	}
 	output += u.BaseUnit().FormatLongFloat(remainder, false)
 	return output
